@@ -207,7 +207,7 @@ func rewriteDigest(img []byte, md bool) ([]byte, error) {
 }
 
 var classes = []string{"none", "flip_covered", "flip_covered", "flip_any", "transplant", "flip+digest_rewrite", "flip+digest_rewrite", "flip+digest_rewrite+md",
-	"transplant+digest_rewrite", "append_behind_table", "blob_mutation", "blob_mutation", "forged_resign", "foreign_signer_splice", "valid_foreign_entry_then_transplant"}
+	"transplant+digest_rewrite", "append_behind_table", "blob_mutation", "blob_mutation", "forged_resign", "foreign_signer_splice", "valid_foreign_entry_then_transplant", "data_signature_grafted"}
 
 func genCase(t *rapid.T) Case {
 	img, signer, base := signedBase(t)
@@ -371,6 +371,57 @@ func genCase(t *rapid.T) Case {
 			blobs[0], blobs[1] = blobs[1], blobs[0]
 		}
 		out, err = acode.WithTable(signedOther, acode.BuildTable(blobs))
+	case "data_signature_grafted":
+		// cross-protocol: the victim's key once signed some *data* (a variable update, a mail: content type id-data).
+		// That genuine SignerInfo is kept; the unsigned content slot gets an SpcIndirectDataContent with the digest of
+		// this image. The signed attributes say "data" and carry the digest of the data, not of the new content.
+		if signer.Key < 0 {
+			err = fmt.Errorf("no private key for the fixture signer")
+			break
+		}
+		bare, serr := acode.StripTable(img)
+		if serr != nil {
+			err = serr
+			break
+		}
+		data := gen.SizedBytes(64, 1, 32).Draw(t, "signeddata")
+		attrs := cms.SortSetOf([]*der.Node{cms.Attr(cms.OIDContentType, der.OID(cms.OIDData...)), cms.Attr(cms.OIDMessageDigest, der.Octets(cms.Digest(data)))})
+		opts := cms.BuildOpts{ContentType: cms.OIDData, Attrs: attrs, Certs: [][]byte{signer.Cert.Raw}, Outer: true, SDVersion: 1, SIVersion: 1, DigestNull: true, SigAlgNull: true}
+		if rapid.Bool().Draw(t, "attached") {
+			opts.EContent = der.Octets(data)
+		}
+		dataSig, berr := cms.Build(signer.Priv(), signer.Cert, opts)
+		if berr != nil {
+			err = berr
+			break
+		}
+		// a genuine Authenticode blob for this image (made with a key of the attacker's) donates its content element
+		attacker := gen.FixedIdents()[5]
+		donorImg, derr := acode.Sign(bare, attacker.Priv(), attacker.Cert, acode.SignOpts{})
+		if derr != nil {
+			err = derr
+			break
+		}
+		des, _, terr := acode.Table(donorImg)
+		if terr != nil || len(des) == 0 {
+			err = fmt.Errorf("donor table")
+			break
+		}
+		donor, perr := cms.Parse(des[len(des)-1].Blob)
+		parsedSig, perr2 := der.ParseOne(dataSig, der.Options{})
+		if perr != nil || perr2 != nil {
+			err = fmt.Errorf("parse: %v %v", perr, perr2)
+			break
+		}
+		root := parsedSig.Clone()
+		sd, lerr := cms.Locate(root)
+		if lerr != nil || sd.EncapCI == nil || donor.EncapCI == nil {
+			err = fmt.Errorf("locate: %v", lerr)
+			break
+		}
+		sd.EncapCI.Children = donor.EncapCI.Clone().Children
+		sd.EncapCI.Opaque, sd.EncapCI.Content = false, nil
+		out, err = acode.WithTable(bare, acode.BuildTable([][]byte{root.Encode()}))
 	case "forged_resign":
 		// tamper, make the blob consistent again (digest + messageDigest) and re-sign the attributes with another key,
 		// keeping the victim's issuer and serial
